@@ -599,6 +599,122 @@ def inherited_dtype_stores(ctx, rule="RD"):
                   bad=(bad[0] + ": for integer input the values are truncated") if bad else "", line=bad[1] if bad else None)
 
 
+def foreign_dtype_casts(ctx, rule="RT"):
+    """A value computed from the caller's coordinates / data / parameters that is converted to the dtype of ANOTHER array
+    (np.array(x, dtype=y.dtype), x.astype(y.dtype)) silently takes over y's precision: when y is integer-typed (a legal input everywhere
+    in this library) the fractional part of x is cut off, so the result depends on the dtype of an unrelated input.  The conversion to the
+    value's own dtype, to a floating literal, or to np.result_type(...) including the value are fine (Q.cast_kind)."""
+    for qn in scope(ctx):
+        fa = ctx.an.fa(qn)
+        if not fa.ok:
+            continue
+        bad = None
+        for fx in [fa] + list(fa.nested.values()):
+            for p in fx.paths:
+                terms = [e.data[0] for e in p.events if e.kind == "call"]
+                for t in terms:
+                    c = Q.cast_of(t)
+                    if c is None:
+                        continue
+                    val, d = c
+                    if not (isinstance(d, tuple) and d[0] == "attr" and d[2] == "dtype"):
+                        continue
+                    src = Q.unwrap(d[1])
+                    uval = Q.unwrap(val)
+                    if src == uval or uval[0] in ("cmp", "const"):
+                        continue
+                    lv = {x for x in walk(uval) if isinstance(x, tuple) and x and x[0] in ("param", "attr") and (x[0] == "param" or x[1] == Q.SELF)}
+                    ls = {x for x in walk(src) if isinstance(x, tuple) and x and x[0] in ("param", "attr") and (x[0] == "param" or x[1] == Q.SELF)}
+                    if not lv or not ls or (lv & ls):
+                        continue            # the dtype comes from (something derived from) the value itself, or nothing can be said
+                    if any(isinstance(x, tuple) and x and x[0] == "call" and str(callee(x)).split(".")[-1] in INDEX_PRODUCERS for x in walk(uval)):
+                        continue            # positions / counts: integers whatever the target
+                    bad = bad or ("%s is converted to the dtype of %s" % (show(val)[:60], show(d[1])[:50]), None)
+        ctx.check(rule, qn + "|no-conversion-to-another-array's-dtype", False if bad else True, "no value is converted to the dtype of an unrelated array", fn=qn, nontrivial=False,
+                  bad=(bad[0] + ": for an integer-typed array the values are truncated (the result depends on the dtype of an unrelated input)") if bad else "")
+
+
+INDEX_PRODUCERS = {"argsort", "argmin", "argmax", "where", "nonzero", "flatnonzero", "arange", "searchsorted", "unravel_index", "ravel_multi_index", "bincount", "digitize",
+                   "query", "query_ball_point", "unique", "len", "range", "cumsum", "lexsort", "indices"}
+
+
+def fills_through_a_copy(ctx, rule="RV"):
+    """An output buffer allocated with np.*_like(prototype) keeps the prototype's memory layout (order='K').  Handing `buffer.ravel()` /
+    `np.ravel(buffer)` / `buffer.reshape(-1)` to a function that FILLS its argument (subscript stores, out=) fills the buffer only if
+    that flattening is a view; for a Fortran-ordered or transposed prototype it is a copy, the stores go to a temporary and the buffer that is used
+    afterwards keeps uninitialised memory.  (np.empty(shape) is C-ordered: its ravel is always a view.)"""
+    from ..effects import Effects
+    ef = getattr(ctx, "_effects", None)
+    if ef is None:
+        ef = ctx._effects = Effects(ctx.an)
+    fills = {}
+    for q, w in ef.writes.items():
+        for prm, (how, _line) in w.items():
+            if how.startswith("subscript store") or how.startswith("out="):
+                fills.setdefault(q, set()).add(prm)
+
+    def like_buffer(b):
+        b0 = b
+        while b0[0] == "sub":
+            b0 = b0[1]
+        alloc = b0
+        if b0[0] == "elem":
+            seq = Q.unseq(b0[1])
+            alloc = seq[2] if seq[0] == "comp" else b0
+        if not (alloc[0] == "call" and callee(alloc) in LIKE_ALLOC and alloc[2]):
+            return None
+        order = Q.arg_kw(alloc, "order")
+        if order is not None and order in (const("C"), const("F")):
+            return None if order == const("C") else alloc
+        proto = Q.unwrap(alloc[2][0])
+        if not any(x[0] == "param" for x in walk(proto) if isinstance(x, tuple) and x):
+            return None
+        return alloc
+
+    def flat_of(a):
+        r = Q.ravel_of(a)
+        if r is not None:
+            return r[0] if r[1] and not (a[1][0] == "attr" and a[1][2] == "flatten") else None
+        r = Q.reshape_of(a)
+        if r is not None and r[1] in (const(-1), ("tuple", (const(-1),))):
+            return r[0]
+        return None
+
+    for qn in scope(ctx):
+        fa = ctx.an.fa(qn)
+        if not fa.ok:
+            continue
+        bad = None
+        for fx in [fa] + list(fa.nested.values()):
+            for p in fx.paths:
+                for e in p.events:
+                    cands = []
+                    if e.kind == "call":
+                        t = e.data[0]
+                        cq = callee(t)
+                        for q2 in ([cq] if cq in fills else []):
+                            for prm in fills[q2]:
+                                a = Q.arg(ctx, t, prm)
+                                if isinstance(a, tuple):
+                                    cands.append((a, "%s fills its argument %s" % (q2.rsplit(".", 1)[1], prm), t))
+                    elif e.kind == "store" and e.data[3] != "container":
+                        base = e.data[0]
+                        cands.append((base, "a subscript store", None))
+                    for a, how, t in cands:
+                        inner = flat_of(a)
+                        if inner is None:
+                            continue
+                        alloc = like_buffer(inner)
+                        if alloc is None:
+                            continue
+                        used = isinstance(p.value, tuple) and any(x == alloc for x in walk(p.value) if isinstance(x, tuple))
+                        if used:
+                            bad = bad or ("%s through a flattened %s, which keeps the memory layout of %s: for a Fortran-ordered or transposed argument the flattening "
+                                          "is a copy and the returned buffer stays unfilled" % (how, show(alloc)[:50], show(alloc[2][0])[:40]), e.line)
+        ctx.check(rule, qn + "|output-buffers-are-filled-through-views", False if bad else True, "no output buffer is filled through a flattening that may be a copy", fn=qn, nontrivial=False,
+                  bad=bad[0] if bad else "", line=bad[1] if bad else None)
+
+
 def late_binding_closures(ctx, rule="RL"):
     """A lambda / nested function created once per iteration of a comprehension or loop, whose body reads the iteration variable as a free
     variable and which is kept as an element of the container being built (dict / list / set value) or appended to one, sees the LAST value
